@@ -58,15 +58,15 @@ type Prog struct {
 	helperOK    map[*ssa.Function]bool
 	sitesOf     map[*ssa.Function][]*ssa.Call
 	usedAsValue map[*ssa.Function]bool
-	rootWrapper map[string]*ssa.Function // goroutine root name -> the wrapper closure that is its go target
+	rootWrapper map[string]*ssa.Function       // goroutine root name -> the wrapper closure that is its go target
 	ctx         []ssa.Instruction              // virtual call stack of the running deep enumeration (innermost last)
 	valueSites  map[*ssa.Function][]valueEntry // functions/closures passed to a helper parameter: where the helper calls them
 	declined    map[*ssa.Function]bool         // helpers some context could not inline
 	cflow       *chanFlow
-	constGlob   map[string]map[int64]int64 // package-level tables that are never written after initialisation
+	constGlob   map[string]map[int64]int64  // package-level tables that are never written after initialisation
 	constStruct map[string]map[string]int64 // package-level structs of constants: variable -> field -> value
-	nnGlob      map[string]bool            // package-level variables that always hold a non-nil value
-	unresolved  []string                   // anchors that failed to resolve
+	nnGlob      map[string]bool             // package-level variables that always hold a non-nil value
+	unresolved  []string                    // anchors that failed to resolve
 	modCache    *modInfo
 	premiseBusy map[*ssa.Function]bool
 }
